@@ -1,8 +1,36 @@
 import HapVerif.Model.C11
-import HapVerif.Drv.Common
+import HapVerif.Drv.C02
 namespace HapVerif.C11
-open HapVerif.Drv
+open HapVerif.Drv HapVerif.C02
 
-def handle (_args : List String) (_impl : String) : Verdict := bad "C11-not-implemented"
+/-- `align <flags> <eps>` impl: `<eps after>`;  `fits <flags> <old> <cur>` and `noop <flags> <eps>`
+impl: `<0|1> <cmds> <cur'>` -/
+def handle (args : List String) (impl : String) : Verdict :=
+  match args with
+  | ["align", fl, epss] =>
+    match parseFlags fl, parseList parseEP epss, parseList parseEP impl with
+    | some f, some eps, some after =>
+      let b : Back := { eps := eps, dynUpdate := f.dyn, resolver := f.res, cookiePreserve := f.pres, initialWeight := f.iw }
+      let m := (alignSlots b f.minfree f.block).eps
+      { model := showEPs m, agree := m = after, oracle := alignOracle f.dyn eps after f.minfree f.block,
+        trivial := after.length = eps.length }
+    | _, _, _ => bad "parse"
+  | [kind, fl, olds, curs] =>
+    match parseFlags fl, parseList parseEP olds, parseList parseEP curs with
+    | some f, some old, some cur =>
+      let m := if shrinks f.same old cur then ⟨true, old, [], false⟩ else updateOne f old cur []
+      let mtxt := if m.panic then "PANIC" else
+        (if m.updated then "1" else "0") ++ " " ++ showCmds m.cmds ++ " " ++ showEPs m.cur
+      let upd := impl.startsWith "1 "
+      let orc : Option String :=
+        if impl = "PANIC" then some "panic" else
+        -- (preserved cookies are excluded by the property's quantifier: a rebuilt endpoint carries a new name-derived cookie)
+        -- and so are blue/green label selectors (use-server rules need a reload)
+        if kind = "noop" then (if upd ∨ f.pres ∨ old.any (·.label ≠ "") then none else some "reload-on-noop")
+        else if f.dyn ∧ !f.res ∧ !f.pres ∧ f.same ∧ fits old cur then (if upd then none else some "reload-although-fits")
+        else none
+      { model := mtxt, agree := mtxt = impl, oracle := orc, trivial := !(fits old cur) }
+    | _, _, _ => bad "parse"
+  | _ => bad "C11"
 
 end HapVerif.C11
